@@ -132,10 +132,17 @@ Proof. exact hostname_change_twice. Qed.
 Theorem C08_suffix_roundtrip : forall n, n <= 4294967295 -> parse_u32 (dec n) = Some n.
 Proof. exact parse_dec. Qed.
 
-(* STILL ENCODABLE, for EVERY input (formerly refuted): both functions keep everything from the
-   first UNESCAPED dot on, and what they put in front of it is at most 63 bytes of label text
-   (label_with_suffix shortens the base), so at most 63 bytes on the wire. *)
+(* STILL ENCODABLE, for EVERY input (formerly refuted): after either rename everything from the
+   first UNESCAPED dot on is what it was (rename_keeps_rest) and the new first label - the text up to
+   the first unescaped dot of the RESULT - is at most 63 bytes on the wire (first_label_encodable):
+   label_with_suffix shortens the base, and the suffix closes any escape the cut left open. *)
 Theorem C08_still_encodable : forall s,
+  rename_keeps_rest s (name_change s) = true /\ first_label_encodable (name_change s) = true /\
+  rename_keeps_rest s (hostname_change s) = true /\ first_label_encodable (hostname_change s) = true.
+Proof. exact rename_encodable_all. Qed.
+
+(* ... in terms of the text: what is put in front of the old rest is at most 63 bytes long *)
+Theorem C08_renamed_label_text_63 : forall s,
   (exists nf, name_change s = nf ++ snd (split_first_label s) /\ (length nf <= 63)%nat) /\
   (exists nf, hostname_change s = nf ++ snd (split_first_label s) /\ (length nf <= 63)%nat).
 Proof. exact rename_fits_both. Qed.
@@ -246,6 +253,7 @@ Print Assumptions C08_hostname_change_at_u32_max.
 Print Assumptions C08_hostname_change_twice.
 Print Assumptions C08_suffix_roundtrip.
 Print Assumptions C08_still_encodable.
+Print Assumptions C08_renamed_label_text_63.
 Print Assumptions C08_former_rename_witnesses.
 Print Assumptions C08_announcement_names_resolved.
 Print Assumptions C08_goodbye_names_resolved.
